@@ -35,6 +35,10 @@ func (t DataType) Bytes(endian binary.ByteOrder, value interface{}, length int64
 		if !ok {
 			return nil, fmt.Errorf("expected *asetypes.Decimal for %s, received %T", t, value)
 		}
+		if dec == nil || dec.i == nil {
+			// NULL, as returned by GoValue for a value without data
+			return []byte{}, nil
+		}
 		deci := dec.Int()
 
 		bs := make([]byte, length)
@@ -51,6 +55,10 @@ func (t DataType) Bytes(endian binary.ByteOrder, value interface{}, length int64
 		dec, ok := value.(*Decimal)
 		if !ok {
 			return nil, fmt.Errorf("expected *asetypes.Decimal for %s, received %T", t, value)
+		}
+		if dec == nil || dec.i == nil {
+			// NULL, as returned by GoValue for a value without data
+			return []byte{}, nil
 		}
 
 		bs := make([]byte, dec.ByteSize())
